@@ -23,7 +23,7 @@ TRUSTED = [
     "modelled, not verified: parser (oracle), redirect-rule lookup match_redirect (oracle here; modelled in the C07/C09 package), the tools' own option grammars and sed/awk script languages (only tested by execution)",
 ]
 
-REAL_TOOLS = ["tee", "sort", "sed", "awk", "iconv", "find", "cat", "mkdir", "touch", "env"]
+REAL_TOOLS = ["tee", "sort", "sed", "awk", "iconv", "find", "cat", "mkdir", "touch", "env", "strace", "ltrace", "time"]
 
 OPS = [">", ">>", ">|", "&>", "&>>", ">&", "<>", "<", "2>", "2>>", "1>", "3>", "3>>", "10>", "{v}>", "{v}>>", "{v}<>", "2>|", "1>&", "2<>"]
 TARGETS = [  # (spelling, expectation class) ; @J@ is the jail directory
@@ -73,6 +73,9 @@ TOOLS = [  # programs using the file-writing options Dippy models (stdin from a 
     "awk '{print > \"{T}\"}' f", "awk '{print >> \"{T}\"}' f", "awk '{printf \"x\" > \"{T}\"}' f", "awk -v o={T} '{print > o}' f",
     "awk '{print > f}' f={T} f", "awk 'BEGIN{o=\"{T}\"; print 1 > o}'", "awk '{print | \"cat > {T}\"}' f", "awk '{print}' f",
     "iconv -f utf8 -t latin1 -o {T} f", "iconv -o{T} f", "iconv --output={T} f", "iconv --output {T} f", "iconv -f utf8 f",
+    # round seven: the wrappers' own output files (strace/ltrace -o, /usr/bin/time -o): written by the wrapper, whatever runs inside
+    "strace -o {T} ls", "strace -o{T} ls", "strace -f -o {T} ls", "ltrace -o {T} ls", "command time -o {T} ls", "command time --output={T} ls",
+    "command time -a -o {T} ls", "strace ls",
     "find . -name f -fprint {T}", "find . -name f -fprint0 {T}", "find . -name f -fls {T}", "find . -name f -fprintf {T} %p", "find . -name f",
 ]
 TOOL_TARGETS = ["out/g", "nogrant", "secret/s", "@J@/out/f", "out/../escape", "-", "only/t5",
